@@ -232,6 +232,10 @@ func (r *responder) flusher(srvs []*netlab.ScriptServer, stop chan struct{}) {
 	}
 }
 
+// batchKeepAlive: the batch's proxy has a push callback registered and a 300 ms idle timeout.
+var batchKeepAlive bool
+var pushesSeen atomic.Int64
+
 // batchApp, when set, is the application instance the batch's proxies live on (nil: a fresh one).
 var batchApp *tars.VerifApp
 
@@ -249,7 +253,17 @@ func runBatch(sc script, callers, perCaller, endpoints int, timeoutMs int, seed 
 	}
 	stop := make(chan struct{})
 	go resp.flusher(srvs, stop)
-	cl := rpcw.NewDirect(addrs, rpcw.Opt{InvokeTimeoutMs: timeoutMs, App: batchApp})
+	bo := rpcw.Opt{InvokeTimeoutMs: timeoutMs, App: batchApp}
+	if batchKeepAlive {
+		bo.IdleTimeout = 300 * time.Millisecond
+	}
+	cl := rpcw.NewDirect(addrs, bo)
+	if batchKeepAlive {
+		// a push client: one-way keep-alive pings every 150 ms; they are requests too — their ids are
+		// never 0 either, and what the peer answers to them is not a push
+		cl.App.ClientConfig().KeepAliveInterval = 0
+		cl.SP.SetPushCallback(func(b []byte) { pushesSeen.Add(1) })
+	}
 	cls := []*rpcw.Client{cl}
 	if twoComms {
 		cls = append(cls, cl.Sibling())
@@ -276,6 +290,9 @@ func runBatch(sc script, callers, perCaller, endpoints int, timeoutMs int, seed 
 		}(g)
 	}
 	wg.Wait()
+	if batchKeepAlive {
+		time.Sleep(700 * time.Millisecond) // a few keep-alive periods with nothing else going on
+	}
 	close(stop)
 	resp.stopped.Store(true)
 	// ---- oracle ----
@@ -555,6 +572,17 @@ func main() {
 		runBatch(scripts[si], 4, run.Pick(20, 100), 1, 400, seed, 0)
 		batchApp = nil
 	}
+	// push clients send keep-alive pings: every request on the wire, pings included, has a non-zero id
+	batchKeepAlive = true
+	for _, si := range []int{0, 3} {
+		seed++
+		before := pushesSeen.Load()
+		runBatch(scripts[si], 2, run.Pick(10, 60), 1, 3000, seed, 0)
+		if n := pushesSeen.Load() - before; n > 0 && !scripts[si].Push {
+			run.Violation("request-id-zero", "keep-alive", fmt.Sprintf("the push callback of a proxy was invoked %d times although the peer pushed nothing: answers to its own requests came back under id 0", n), map[string]interface{}{"script": scripts[si]})
+		}
+	}
+	batchKeepAlive = false
 	// two communicators with proxies for the same object share the adapters: ids must still be distinct
 	twoComms = true
 	for _, si := range []int{0, 2, 3} {
